@@ -5,6 +5,7 @@ import (
 	"math/rand"
 	"os"
 	"runtime/debug"
+	"strings"
 
 	"github.com/vechain/thor/v2/api/restutil"
 	"github.com/vechain/thor/v2/builtin"
@@ -62,6 +63,7 @@ type reader struct {
 	lastFin                       thor.Bytes32
 	maxFinSteps                   int
 	apiCalls, api4xx              uint64
+	nWalks, nJust, nNext          uint64
 	apiBest                       []apiObs
 	all                           []obsRec // every observation of best (checked against the publication timeline after the run)
 
@@ -296,6 +298,7 @@ func (r *reader) readStateSample(sum *chain.BlockSummary, g *group, f *bfact, n 
 
 // readWholeState walks the ENTIRE state of the observed block and compares its digest with the reference node's.
 func (r *reader) readWholeState(sum *chain.BlockSummary, g *group, f *bfact) (failed bool) {
+	r.nWalks++
 	d, _, _, err := nodecheck.StateDigest(r.rc.node.DB, sum.Root())
 	ok := err == nil && (f == nil || d == f.stateDigest)
 	r.rd(g, "state", 0, ok, thor.Bytes32{})
@@ -354,16 +357,38 @@ func (r *reader) observeJustified() {
 		return
 	}
 	n := r.rc.node
+	fin0 := n.BFT.Finalized()
 	s := r.stamp()
 	j, err := n.BFT.Justified()
 	e := r.stamp()
+	r.nJust++
 	if err != nil {
-		r.violate("justified-error", fmt.Sprintf("Engine.Justified(): %v", err), s, e, thor.Bytes32{})
+		r.violate(justifiedErrSig(err.Error()), fmt.Sprintf("Engine.Justified(): %v", err), s, e, thor.Bytes32{})
 		return
 	}
-	if _, err := n.Repo.GetBlockSummary(j); err != nil {
+	sum, err := n.Repo.GetBlockSummary(j)
+	if err != nil {
 		r.violate("justified-unreadable", fmt.Sprintf("justified %s: %v", short(j), err), s, e, j)
+		return
 	}
+	// content: a checkpoint at or above the finalized checkpoint seen before the call, on its chain, not above best
+	best := n.Repo.BestBlockSummary()
+	switch f := r.w.facts[j]; {
+	case sum.Header.Number()%3 != 0:
+		r.violate("justified-inadmissible", fmt.Sprintf("justified %s is not a checkpoint", short(j)), s, e, j)
+	case f != nil && !r.w.isAnc(fin0, j):
+		r.violate("justified-inadmissible", fmt.Sprintf("justified %s does not descend from the finalized checkpoint %s seen before the call", short(j), short(fin0)), s, e, j)
+	case sum.Header.Number() > best.Header.Number()+0 && r.w.facts[best.Header.ID()] != nil && !r.w.isAnc(j, best.Header.ID()):
+		r.violate("justified-inadmissible", fmt.Sprintf("justified %s is above the best block %s read after the call", short(j), short(best.Header.ID())), s, e, j)
+	}
+}
+
+// justifiedErrSig: the one error class with a known mechanism gets its own signature (best loaded before finalized).
+func justifiedErrSig(msg string) string {
+	if strings.Contains(msg, "headID precedes finalized") {
+		return "justified-error:stale-head"
+	}
+	return "justified-error"
 }
 
 func (r *reader) loop() {
@@ -441,6 +466,7 @@ func (r *reader) nextStep() {
 		return
 	}
 	parent := sum.Header.ParentID()
+	r.nNext++
 	r.nObs++
 	r.byPhase[ph]++
 	if ph != phIdle {
